@@ -293,6 +293,31 @@ def op_mdd(w, ins):
         ok, v = call(w, m.incref, s[0])
         expect_ok(w, ok, v, 'C15', 'MDD incref')
         mw.slots.append(s)
+    elif k == 'gcr':
+        # rooted collection: arbitrary stored nodes, possibly complemented
+        succ0, _ = mw.den_all()
+        nodes = sorted(succ0)
+        roots = [nodes[i % len(nodes)] for i in ins['kids'][:3]]
+        roots = [(-u if (ins['bits'] >> j) & 1 and u != 1 else u) for j, u in enumerate(roots)]
+        cnt = {u: m.ref(u) for u in succ0}
+        must = set()
+        st = [abs(u) for u in roots if abs(u) != 1 and cnt[abs(u)] == 0]
+        while st:
+            u = st.pop()
+            if u in must:
+                continue
+            must.add(u)
+            for c in succ0[u][1:]:
+                c = abs(c)
+                cnt[c] -= 1
+                if cnt[c] == 0 and c != 1:
+                    st.append(c)
+        ok, v = call(w, m.collect_garbage, roots)
+        expect_ok(w, ok, v, 'C15', f'MDD collect_garbage({roots})')
+        left = must & set(m)
+        if left:
+            w.fail('rooted_gc_kept', f'MDD collect_garbage({roots}) kept {sorted(left)[:6]}', ['C15'])
+        w.stats['mdd_gc_rooted'] += 1
     elif k == 'gc':
         ok, v = call(w, m.collect_garbage)
         expect_ok(w, ok, v, 'C15', 'MDD collect_garbage')
@@ -396,7 +421,7 @@ def gen_mdd(w, r, cfg):
         return dict(op='mdd', k='new', sizes=[r.choice([2, 2, 3, 4, 5]) for _ in range(n)],
                     level=_ri(r, 8), bits=r.randrange(1, 31))
     k = r.choice(['new', 'new', 'foa', 'foa', 'ite', 'ite', 'apply', 'apply', 'apply', 'drop', 'drop', 'drop',
-                  'dup', 'gc', 'gc', 'redo', 'redo', 'probe', 'probe'])
+                  'dup', 'gc', 'gc', 'gcr', 'redo', 'redo', 'probe', 'probe'])
     if len(w.mdd.slots) > 10:
         k = r.choice(['drop', 'drop', 'gc', k])
     hist = getattr(w.mdd, 'hist', None)
